@@ -307,6 +307,7 @@ inline void runFaulted(Ctx& c, const StreamSet& S, const std::vector<FFrame>& L,
     ASAM::CMP::Decoder dec;
     std::vector<Bytes> fed;
     char buf[300];
+    std::map<int, std::vector<size_t>> deliveredAt;
     for (size_t call = 0; call < L.size(); ++call)
     {
         fed.push_back(L[call].raw);
@@ -359,22 +360,29 @@ inline void runFaulted(Ctx& c, const StreamSet& S, const std::vector<FFrame>& L,
                 c.violation(s.payload.bytes != m.data ? "C06:corrupted-payload-delivered" : "C06:delivered-header-differs-from-sent", std::string(buf) + "; delivered " + s.str(), input());
             }
         }
-        auto md = mustDeliver.find(call);
-        if (md != mustDeliver.end())
-        {
-            for (int mi : md->second)
-            {
-                if (std::find(deliveredIdx.begin(), deliveredIdx.end(), mi) == deliveredIdx.end())
-                {
-                    const Sent& m = S.msgs[static_cast<size_t>(mi)];
-                    snprintf(buf, sizeof buf, "call %zu: %s message %d arrived complete, in order and uninterrupted on its endpoint but was not delivered", call, m.segmented ? "segmented" : "unsegmented", mi);
-                    c.violation(m.segmented ? "C06:no-recovery-complete-message-not-delivered" : "C06:unsegmented-message-not-delivered", buf, input());
-                }
-                else
-                    c.count(S.msgs[static_cast<size_t>(mi)].segmented ? "recovered_segmented_deliveries" : "required_unsegmented_deliveries");
-            }
-        }
+        for (int mi : deliveredIdx)
+            deliveredAt[mi].push_back(call);
     }
+    // O2 recovery: every message that arrived complete, in order and uninterrupted on its endpoint is delivered (at the
+    // call of its last frame or later; the exact moment is C05's business)
+    for (auto& md : mustDeliver)
+        for (int mi : md.second)
+        {
+            bool ok = false;
+            auto it = deliveredAt.find(mi);
+            if (it != deliveredAt.end())
+                for (size_t at : it->second)
+                    if (at >= md.first)
+                        ok = true;
+            const Sent& m = S.msgs[static_cast<size_t>(mi)];
+            if (!ok)
+            {
+                snprintf(buf, sizeof buf, "%s message %d arrived complete, in order and uninterrupted on its endpoint (last frame at call %zu) but was not delivered", m.segmented ? "segmented" : "unsegmented", mi, md.first);
+                c.violation(m.segmented ? "C06:no-recovery-complete-message-not-delivered" : "C06:unsegmented-message-not-delivered", buf, "faults=" + faultLog + " stream=" + describeFrames(fed, fed.size() - 1, 300));
+            }
+            else
+                c.count(m.segmented ? "recovered_segmented_deliveries" : "required_unsegmented_deliveries");
+        }
 }
 
 inline Fault genFault(Rng& r, size_t n)
